@@ -7,6 +7,21 @@ HERE = os.path.dirname(os.path.dirname(os.path.abspath(__file__)))
 
 # property -> (technique, level text, level note, design ref)
 CLAIMED = {
+    "C14": (
+        "CFG rules over VariantMatcher.request_loop (control dependence of every yield on the "
+        "cache-miss branch, must-pass-through of the cache update after each request, exits of "
+        "the candidate loop dominated by the match record) and a decision-table check of "
+        "MatchingParameter.__matches",
+        "Decides the request/caching discipline and the loop shape for every path of the "
+        "generator: requests are the current candidate's identification request, issued only on "
+        "a cache miss and cached before the next request; cached and fresh responses reach the "
+        "same comparison; candidates/patterns/parameters are tried in list order; the candidate "
+        "loop is left only with a recorded match; all/any accumulation has the prescribed "
+        "shape; every response object is tried; values are compared by decoded type and absence "
+        "is tested by identity.",
+        "Not decided: outcomes over concrete ECU response histories. Trusted: idiom recognisers "
+        "for the all/any flags.",
+        "DESIGN.md section 3, C14"),
     "C18": (
         "mirror-pair analysis of every comparison in Comparison.compare_parameters, loop-shape "
         "rules for the classification loops, repeated-test and literal-attribute lints typed "
